@@ -220,6 +220,14 @@ func (ch c03) framing(c *core.Ctx, env *hs.Env, rng *core.Rng, idx int) {
 			})
 			body := full[5:]
 			m = pg.Raw(full[0], body[:rng.Intn(len(body))])
+			if rng.Intn(3) == 0 {
+				// a complete Bind whose first parameter length word is corrupted (larger than the message,
+				// top bit set, -2): short data for GetBytes
+				b := pg.Bind("p", "nosuch", nil, [][]byte{[]byte("abcdefgh")}, nil)
+				off := 5 + len("p\x00nosuch\x00") + 2 + 2
+				binary.BigEndian.PutUint32(b[off:], core.Pick(rng, []uint32{9, 1000, 0x7fffffff, 0x80000000, 0x80000008, 0xfffffffe, 0xfffffff0}))
+				m = b
+			}
 			shape += "t"
 			// short data is answered by an error or by closing the connection: it is the last
 			// message of the stream and the probe behind it may or may not be reached
